@@ -153,6 +153,8 @@ def v_isinstance(obj, cls):
         return _real_isinstance(obj, (VBytes, bytes))
     if cls is VByteArray:
         return _real_isinstance(obj, (VByteArray, bytearray))
+    if _real_isinstance(obj, core.SymIntSub) and _real_isinstance(cls, type) and issubclass(cls, int):
+        return issubclass(obj._cls, cls)
     if cls is int:
         return _real_isinstance(obj, (int, SymInt, SymBool))
     if cls is bool:
@@ -311,8 +313,15 @@ def v_getitem(obj, idx):
                 raise IndexError("list index out of range")
             if not _real_isinstance(idx, SymInt):
                 return obj[idx]
-            if all(_real_isinstance(v, (int, SymInt)) and not _real_isinstance(v, bool) for v in obj):
-                return vtypes._select([int(v) if _real_isinstance(v, int) else v for v in obj], idx)
+            if all(type(v) is int or _real_isinstance(v, SymInt) for v in obj):
+                return vtypes._select(list(obj), idx)
+            k0 = type(obj[0]) if n else None
+            if n and issubclass(k0, int) and k0 is not bool and all(type(v) is k0 for v in obj):
+                # table of instances of one int subclass (e.g. the CScriptOp singleton table)
+                if all(int(v) == i for i, v in enumerate(obj)):
+                    return core.SymIntSub.wrap(idx, k0)
+                r = vtypes._select([int(v) for v in obj], idx)
+                return core.SymIntSub.wrap(r, k0) if _real_isinstance(r, SymInt) else k0(r)
             return obj[cur().concretize(idx)]
         if _real_isinstance(obj, str):
             return VStr(obj)[idx]
